@@ -175,13 +175,22 @@ func ZZ_C17_structure() {
 // to the target store concerns a bin that overlaps the scaled source bin. Mappings: any pair with strictly
 // increasing positive bin bounds; the new mapping's Index is bin-consistent only up to a neighbouring bin,
 // which is all that C03 establishes for the real mappings ("up to a few ulps").
-func ZZ_C17_weights_nonnegative() {
+func ZZ_C17_weights_nonnegative()              { zzC17Weights(false) }
+
+// the same with the requested mapping EQUAL to the current one (a pure unit change, scale factor 1/2 or 2)
+func ZZ_C17_weights_nonnegative_same_mapping() { zzC17Weights(true) }
+
+func zzC17Weights(same bool) {
 	zzvBound("weights", "one source bin (sparse store, symbolic index, symbolic positive finite float64 weight) on either side; scale factor from {1/2, 1, 2} (exact products; the old mapping's bounds being arbitrary increasing positive numbers, so are the scaled ones); old and new mapping known through strictly increasing positive bin bounds, the new Index consistent with them up to one neighbouring bin; at most 3 target bins follow the first one below the scaled source bin's upper bound; recording target stores")
 	zzvAssumption("sign of a redistributed weight = sign of min(outHigh,inHigh)-max(outLow,inLow), by the IEEE-754 sign rules for -, / and * (inSize > 0, count > 0)")
 	zzvExactFloatsOnly()
 	zzvMapOrders(2)
 	zzvSolverSeconds(120)
 	old, nw := &zzMonotoneMapping{id: 0}, &zzMonotoneMapping{id: 1, slack: true}
+	if same {
+		old.slack = true
+		nw = old
+	}
 	s := NewDDSketch(old, store.NewSparseStore(), store.NewSparseStore())
 	idx := zzvMInt("index", -(1 << 19), 1<<19)
 	w := zzvFloat64("weight")
@@ -193,6 +202,9 @@ func ZZ_C17_weights_nonnegative() {
 		s.positiveValueStore.AddWithCount(idx, w)
 	}
 	scale := []float64{0.5, 1, 2}[zzvChoose("scale", 3)]
+	if same && scale == 1 {
+		scale = 2
+	}
 	lo := old.LowerBound(idx) * scale
 	hi := old.LowerBound(idx+1) * scale
 	zzvAssume(zzvAnd(lo > 1e-290, zzvAnd(lo < hi, hi < 1e290)))
